@@ -457,7 +457,16 @@ fn reply_script(reply: &Reply) -> (Script, (u64, Vec<u8>, ReplySeen)) {
     }
     let seen = match &reply.result {
         #[allow(deprecated)]
-        SubMsgResult::Ok(r) => ReplySeen::Ok { events: r.events.clone(), data: r.data.clone() },
+        SubMsgResult::Ok(r) => {
+            // the response data travels twice (the deprecated `data` field and `msg_responses`): where the
+            // sub-message produced data, a message response carries exactly that data, and none carries other data —
+            // otherwise the data seen is marked, which the comparison with the expected reply reports
+            let d = r.data.clone().unwrap_or_default();
+            let carried = r.data.is_none() || r.msg_responses.iter().any(|m| m.value == d);
+            let foreign = r.msg_responses.iter().any(|m| !m.value.is_empty() && m.value != d);
+            let data = if carried && !foreign { r.data.clone() } else { Some(Binary::from([d.as_slice(), b"!msg_responses carry other data than the data field"].concat())) };
+            ReplySeen::Ok { events: r.events.clone(), data }
+        }
         SubMsgResult::Err(_) => ReplySeen::Err,
     };
     let script = match serde_json::from_slice::<ReplyPlan>(reply.payload.as_slice()) {
